@@ -24,7 +24,7 @@ def witness_search(tier, seed):
     import itertools
     from simfile.sm import SMSimfile, SMChart
     import simfile
-    vals = [None, "", "a", "x:y", ":180", "::", ":TIME=1:LEN=2", "a;b", "c\\d", "e//f", "line1\nline2", " sp ", "cr\rlf\r\nend"]
+    vals = [None, "", "a", "x:y", ":180", "::", ":TIME=1:LEN=2", "60\\:240", "a;b", "c\\d", "e//f", "line1\nline2", " sp ", "cr\rlf\r\nend"]
     keys = ["TITLE", "ATTACKS", "DISPLAYBPM", "FOO"]
     for k, v in itertools.product(keys, vals):
         for extra in (None, ["x", "y:z"], [" padded ", "\n  line\n"]):
